@@ -234,7 +234,7 @@ def command_text(ev):
     raise ValueError(c)
 
 
-def run(trace, render=None, color=False, snapshot_db=True):
+def run(trace, render=None, color=False, snapshot_db=True, keep_session=False, keep_raw=False):
     """trace: {"init": {...}, "events": [{"in": ev}, ...]}; fills in every event's "obs".
 
     render: dict of printer options (dialect, mark, queue, offset).
@@ -246,6 +246,17 @@ def run(trace, render=None, color=False, snapshot_db=True):
     b_text = mrender.r_top(init['b']) if init.get('hasb') else None
     S = Session(show=init.get('show', True), f_text=f_text, b_text=b_text, color=color)
     m = S.m
+    if keep_session:
+        trace['_S'] = S
+    if keep_raw:
+        orig_items = S.items
+
+        def items_raw():
+            chunks = list(S.rec.chunks)
+            it = orig_items()
+            S.last_raw = chunks
+            return it
+        S.items = items_raw
     events = trace['events']
     state = {'i': 0, 'pending': None}
 
@@ -253,6 +264,8 @@ def run(trace, render=None, color=False, snapshot_db=True):
         """called when the tool has finished with the event"""
         ev = evrec['in']
         obs = {'items': S.items(), 'conns': S.conns(), 'nh': len(S.hist()), 'sel': S.sel()}
+        if keep_raw:
+            obs['_raw'] = S.last_raw
         if ev['e'] == 'msg':
             tag = ev['tag'] if ev['tag'] != '' else 'PARSED'
             if tag not in S.tagconn:
@@ -304,7 +317,16 @@ def run(trace, render=None, color=False, snapshot_db=True):
             if evrec['in']['e'] == 'eval':
                 do_eval(evrec)
                 continue
-            S.ctl.process_command(command_text(evrec['in']))
+            try:
+                S.ctl.process_command(command_text(evrec['in']))
+            except MachineryError:
+                raise
+            except Exception as e:      # a command must produce output or an error line, never raise (C18)
+                import traceback
+                observe(evrec)
+                evrec['obs']['raised'] = True
+                evrec['obs']['exception'] = traceback.format_exc()[-600:]
+                continue
             observe(evrec)
 
     if trace.get('mode') == 'iface':
@@ -353,6 +375,8 @@ def run(trace, render=None, color=False, snapshot_db=True):
             state['i'] += 1
             state['pending'] = evrec
             evrec['_nh_before'] = len(S.hist())
+            if ev['e'] == 'line':        # arbitrary text (fuzzing): no claim about what it is
+                return ev['raw'] if ev.get('nonl') else ev['raw'] + '\n'
             if ev['e'] == 'msg':
                 return ev.get('line') or (printer.line(ev, **render) + '\n')
             text = ev['raw'] if 'raw' in ev else ev['text']
